@@ -14,7 +14,7 @@ A *description* is plain JSON-able data (dicts / lists / str / int / bool / None
          | {"t": "ts", "ms": int, "h": bool}             inline timestamp
          | {"t": "nl"}                                    line terminator inside the payload
          | {"t": "tag", "name": "b"|"i"|"u"|"c"|"lang"|"v", "classes": [str...], "annot": [annotpart...]|None, "sep": " "|"\t",
-            "kids": [node...]}
+            "kids": [node...]}      (+ "noclose": true on a <v> that is the only component of the cue text: </v> omitted)
          | {"t": "ruby", "classes": [...], "pairs": [{"base": [node...], "rt": [node...]|None, "rtc": [class...], "close": bool}]}
   annotpart = {"t": "text", "s": str} | {"t": "ent", "raw":..., "ch":...}
 
@@ -68,8 +68,10 @@ def profile(**kw):
   trigger the known shallow reader defects are left to dedicated parts (see vt/props/c11.py PARTS)."""
   p = {
     "max_cues": 4,
-    "ts": "safe",            # none | safe (top level only, one per cue unless the cue starts at 0, none in cues with ruby) | full
-    "ruby": "top",           # none | top (top level of the payload, text-only base/annotation, </rt> present) | full
+    "ts": "safe",            # none | safe (top level only, one per cue - two when the cue starts at 0 -, none in cues with ruby) | full
+    "ruby": "top",           # none | top (top level of the payload, text-only base/annotation, </rt> present) | nested (same content,
+                             # inside tags too) | structured (top level; tags and line breaks inside base and annotation)
+                             # | loose (top level, text only; the last </rt> or the last <rt>...</rt> omitted)
     "entities": "safe",      # none | safe | semi (references that need the semicolon) | all
     "annot_entities": False, # character references inside <v ...> annotations
     "geometry": "safe",      # none | safe | all | numbers (line-number ladders) | fractional
@@ -122,7 +124,7 @@ def render_nodes(nodes):
       out.append("\n")
     elif t == "tag":
       a = "" if n["annot"] is None else n["sep"] + render_annot(n["annot"])
-      out.append("<" + n["name"] + _classes(n["classes"]) + a + ">" + render_nodes(n["kids"]) + "</" + n["name"] + ">")
+      out.append("<" + n["name"] + _classes(n["classes"]) + a + ">" + render_nodes(n["kids"]) + ("" if n.get("noclose") else "</" + n["name"] + ">"))
     elif t == "ruby":
       out.append("<ruby" + _classes(n["classes"]) + ">")
       for p in n["pairs"]:
@@ -237,7 +239,8 @@ def _clean_nl(nodes, state):
       n = dict(n)
       state["boundary"] = False      # the start tag is a non-blank character on this raw line
       n["kids"] = _clean_nl(n["kids"], state)
-      state["boundary"] = False      # so is the end tag
+      if not n.get("noclose"):
+        state["boundary"] = False    # so is the end tag
     elif t == "ruby":
       n = dict(n)
       state["boundary"] = False
@@ -284,8 +287,7 @@ def _assign(cue, ci, prof, seeds):
   all_ts = [n for n in walk_nodes(nodes) if n["t"] == "ts"]
   limit = min(3, cue["end"] - cue["begin"] - 1)
   if prof["ts"] == "safe":
-    if cue["begin"] != 0:
-      limit = min(limit, 1)
+    limit = min(limit, 1 if cue["begin"] != 0 else 2)
     if has_kind(nodes, "ruby"):
       limit = 0
   elif prof["ts"] == "none":
@@ -390,8 +392,8 @@ def _kids(draw, prof, depth, where, min_size=0):
   kinds = ["text"] * 5
   if prof["entities"] != "none":
     kinds += ["ent"]
-  in_ruby = where in ("rb", "rt")
-  if not in_ruby or prof["ruby"] == "full":
+  in_ruby = where in ("rb", "rt", "rb*", "rt*")
+  if not in_ruby or where.endswith("*"):
     kinds += ["nl"] * 2
     if depth < prof["depth"]:
       kinds += ["tag"] * 4
@@ -399,8 +401,8 @@ def _kids(draw, prof, depth, where, min_size=0):
       kinds += ["ts"] * 3
     elif prof["ts"] == "safe" and depth == 0:
       kinds += ["ts"] * 2
-  if not in_ruby and prof["ruby"] != "none" and depth < prof["depth"] and (prof["ruby"] == "full" or depth == 0):
-    kinds += ["ruby"]
+  if not in_ruby and prof["ruby"] != "none" and depth < prof["depth"] and (prof["ruby"] == "nested" or depth == 0):
+    kinds += ["ruby"] * (1 if prof["ruby"] == "top" else 3)
   n = draw(st.integers(min_size, 5 if depth == 0 else 4 if depth < 2 else 3))
   out = []
   for _ in range(n):
@@ -418,21 +420,21 @@ def _kids(draw, prof, depth, where, min_size=0):
       out.append({"t": "tag", "name": name, "classes": draw(_class_list(name)),
                   "annot": draw(_annotation(name, prof)) if name in ("lang", "v") else None,
                   "sep": draw(st.sampled_from([" ", " ", "\t"])),
-                  "kids": draw(_kids(prof, depth + 1, "rt" if where == "rt" else ("rb" if where == "rb" else "tag")))})
+                  "kids": draw(_kids(prof, depth + 1, where if in_ruby else "tag"))})
     else:
-      full = prof["ruby"] == "full"
+      # flavour of this ruby: plain text content, or (profile "content") one of the exotic-but-legal shapes
+      flavour = {"structured": ["structured"], "loose": ["open-rt", "open-rt", "base-without-rt"]}.get(prof["ruby"], ["plain"])
+      flavour = draw(st.sampled_from(flavour))
+      full = flavour == "structured"
       pairs = []
-      for i in range(draw(st.integers(1, 3))):
-        pairs.append({"base": draw(_kids(prof, depth + 1, "rb", min_size=1)) if full else [draw(_text_node())],
-                      "rt": draw(_kids(prof, depth + 2, "rt")) if full else [draw(_text_node())] + ([draw(_entity(prof))] if prof["entities"] != "none" and draw(st.integers(0, 3)) == 0 else []),
-                      "rtc": draw(_class_list("rt")) if full else [], "close": True})
-      if full:
-        last = pairs[-1]
-        opt = draw(st.sampled_from(["closed", "closed", "open", "no-rt"]))
-        if opt == "open":
-          last["close"] = False
-        elif opt == "no-rt" and len(pairs) > 1:
-          last["rt"] = None
+      for i in range(draw(st.integers(2 if flavour == "base-without-rt" else 1, 3))):
+        pairs.append({"base": draw(_kids(prof, depth + 1, "rb*", min_size=1)) if full else [draw(_text_node())],
+                      "rt": draw(_kids(prof, depth + 2, "rt*")) if full else [draw(_text_node())] + ([draw(_entity(prof))] if prof["entities"] != "none" and draw(st.integers(0, 3)) == 0 else []),
+                      "rtc": draw(_class_list("rt")) if flavour != "plain" else [], "close": True})
+      if flavour == "open-rt":
+        pairs[-1]["close"] = False
+      elif flavour == "base-without-rt":
+        pairs[-1]["rt"] = None
       out.append({"t": "ruby", "classes": draw(_class_list("ruby")), "pairs": pairs})
   return out
 
@@ -527,7 +529,7 @@ def _settings(prof):
   if g == "none":
     return st.just({})
   if g == "safe":
-    return st.one_of(st.just({}), _safe_settings(), _safe_settings())
+    return st.one_of(st.just({}), _safe_settings(), _safe_settings(), _safe_settings(), _safe_settings())
   if g == "all":
     return _all_settings()
   if g == "fractional":
@@ -567,7 +569,7 @@ def descs(draw, prof=None):
   if prof["geometry"] == "numbers":
     vert_all = draw(st.sampled_from([None, None, "lr", "rl"]))
   pool = draw(st.lists(_settings(prof), min_size=1, max_size=3))
-  t = draw(st.one_of(st.sampled_from(BEGINS), st.integers(0, 2 * 3600 * 1000)))
+  t = draw(st.one_of(st.just(0), st.sampled_from(BEGINS), st.integers(0, 2 * 3600 * 1000)))
   for ci in range(ncues):
     if prof["blocks"] and draw(st.integers(0, 3)) == 0:
       blocks.append(draw(_note()))
@@ -585,6 +587,10 @@ def descs(draw, prof=None):
       ident = draw(st.sampled_from(IDS))
     if prof["empty_payload"] and draw(st.integers(0, 2)) == 0:
       nodes = []
+    elif draw(st.integers(0, 11)) == 0:
+      # the whole cue text is one voice span (its end tag may then be omitted)
+      nodes = [{"t": "tag", "name": "v", "classes": draw(_class_list("v")), "annot": draw(_annotation("v", prof)), "sep": " ",
+                "kids": draw(_kids(prof, 1, "tag", min_size=1))}]
     else:
       nodes = draw(_kids(prof, 0, "top", min_size=1))
     hb = draw(st.booleans())
@@ -598,6 +604,9 @@ def descs(draw, prof=None):
       cue["nodes"] = normalise_nodes(nodes)
       _assign(cue, ci, prof, seeds)
       cue["nodes"] = normalise_nodes(cue["nodes"])
+      if len(cue["nodes"]) == 1 and cue["nodes"][0]["t"] == "tag" and cue["nodes"][0]["name"] == "v" and draw(st.booleans()):
+        cue["nodes"][0]["noclose"] = True
+        cue["nodes"] = normalise_nodes(cue["nodes"])
     blocks.append(cue)
   header = draw(st.sampled_from(["", "", "", " - Title of the file", "\tKind: captions", " ", " -- > x", " 日本語"]))
   desc = {"bom": draw(st.integers(0, 7)) == 0, "header": header, "head_gap": draw(st.sampled_from([1, 1, 2])), "blocks": blocks,
@@ -665,6 +674,7 @@ def validate(desc):
         last = n["ms"]
       elif n["t"] == "tag":
         assert n["name"] in ("b", "i", "u", "c", "lang", "v") and (n["annot"] is not None) == (n["name"] in ("lang", "v"))
+        assert not n.get("noclose") or (n["name"] == "v" and len(b["nodes"]) == 1 and b["nodes"][0] is n), "only a sole <v> may omit its end tag"
         if n["annot"] is not None:
           a = render_annot(n["annot"])
           assert a.strip() and not any(c in a for c in "\r\n>") and all("&" not in p["s"] for p in n["annot"] if p["t"] == "text")
@@ -825,6 +835,8 @@ def cue_features(b):
     t = n["t"]
     if t == "tag":
       f.add("tag:" + n["name"])
+      if n.get("noclose"):
+        f.add("voice-end-tag-omitted")
       if n["classes"]:
         f.add("classes")
       if n["annot"] is not None and any(p["t"] == "ent" for p in n["annot"]):
@@ -1009,5 +1021,8 @@ def selftest():
   assert normalise_nodes(n) == n
   n = normalise_nodes([{"t": "text", "s": "x"}, {"t": "nl"}] * 6)
   assert render_nodes(n) == "x\nx\nx\nxxx", render_nodes(n)
+  n = normalise_nodes([{"t": "tag", "name": "v", "classes": [], "annot": [{"t": "text", "s": "T"}], "sep": " ", "noclose": True,
+                        "kids": [{"t": "text", "s": "x"}, {"t": "nl"}]}])
+  assert render_nodes(n) == "<v T>x", render_nodes(n)
   for c in simplifications(d):
     validate(c)
